@@ -22,6 +22,9 @@ pub enum Case {
     /// samples with integer offsets of exactly equal length (Pythagorean triples, times 2^exp2) from an integer centre:
     /// bit-identical distances from the centre; the guess may be concentric (guess offsets are multiples of 1/8 of R)
     CircleLattice { cx: i32, cy: i32, which: u8, exp2: i32, drop: Vec<u16>, guess: (i8, i8, f64), gaussian: Option<f64> },
+    /// kind 0: general position; 1: exactly collinear lattice triple; 2..4: a bit-identical repeated point (p0=p1, p1=p2,
+    /// p0=p2); 5: all three identical
+    ThreePoints { p0: P2, p1: P2, p2: P2, kind: u8 },
     Ransac { c: P2, r: f64, n_in: usize, in_angles: Vec<f64>, outliers: Vec<P2>, limits: u8 },
     Stats { values: Vec<f64> },
 }
@@ -30,13 +33,13 @@ impl Property for C09 {
     type Case = Case;
     const ID: &'static str = "C09";
     fn rule() -> &'static str {
-        "families: polynomial least squares with K=2..6 coefficients on 1.5K..200 abscissae centred at c in [-1.5,1.5] with half-width 0.2..2 (asymmetric, clustered, repeated values), coefficients +-10, optional positive weights 0.05..20, exact samples or +-1 noise (cases with normal-matrix condition > 1e10 discarded and counted); two-point lines; circle fits on arcs of 60..360 degrees, 5..200 points, guess within 0.5R / 0.5-2x radius, All and Gaussian(sigma>=2) modes, exact or noisy; lattice circles (Pythagorean offsets from an integer centre, bit-identical distances) with concentric or offset guesses, and with the generating circle itself as the guess; seeded RANSAC with >=50% exact inliers; mean/variance/median. Oracle: recovery of the generating polynomial/circle, weighted normal equations (residual orthogonal to every monomial), QR reference solve, stationarity of the radial objective, inlier count. Non-trivial: abscissae not symmetric about 0 (|centre| > 0.1 half-width) and, when weighted, max/min weight >= 2; circles not centred at the origin. Distinct = distinct canonical JSON."
+        "families: polynomial least squares with K=2..6 coefficients on 1.5K..200 abscissae centred at c in [-1.5,1.5] with half-width 0.2..2 (asymmetric, clustered, repeated values), coefficients +-10, optional positive weights 0.05..20, exact samples or +-1 noise (cases with normal-matrix condition > 1e10 discarded and counted); two-point lines; circle fits on arcs of 60..360 degrees, 5..200 points, guess within 0.5R / 0.5-2x radius, All and Gaussian(sigma>=2) modes, exact or noisy; lattice circles (Pythagorean offsets from an integer centre, bit-identical distances) with concentric or offset guesses, and with the generating circle itself as the guess; three-point circles (general position, exactly collinear, a repeated point); seeded RANSAC with >=50% exact inliers; mean/variance/median. Oracle: recovery of the generating polynomial/circle, weighted normal equations (residual orthogonal to every monomial), QR reference solve, stationarity of the radial objective, inlier count. Non-trivial: abscissae not symmetric about 0 (|centre| > 0.1 half-width) and, when weighted, max/min weight >= 2; circles not centred at the origin. Distinct = distinct canonical JSON."
     }
     fn cases(t: Tier) -> u32 {
         t.pick(1_000_000, 6_000_000)
     }
     fn expected_labels() -> Vec<&'static str> {
-        vec!["poly_exact", "poly_noisy", "weighted", "K=2", "K=3", "K=4", "K=5", "K=6", "best_fit_line", "line_2pts", "circle_exact", "circle_noisy", "circle_gaussian", "circle_lattice", "circle_concentric_guess", "ransac", "stats", "asymmetric"]
+        vec!["poly_exact", "poly_noisy", "weighted", "K=2", "K=3", "K=4", "K=5", "K=6", "best_fit_line", "line_2pts", "circle_exact", "circle_noisy", "circle_gaussian", "circle_lattice", "circle_concentric_guess", "three_points_general", "three_points_collinear", "three_points_repeated", "ransac", "stats", "asymmetric"]
     }
     fn strategy(_t: Tier) -> BoxedStrategy<Case> {
         let poly = (2usize..=6, prop::collection::vec(coord(10.0), 6), unif(-1.5, 1.5), unif(0.2, 2.0), prop::collection::vec(prop_oneof![4 => unif(-1.0, 1.0), 1 => (-4i32..=4).prop_map(|k| k as f64 / 4.0)], 9..200), prop::option::of(prop::collection::vec(logu(-1.3, 1.3), 200)), prop::option::of(prop::collection::vec(unif(-1.0, 1.0), 200)), 0usize..200)
@@ -57,7 +60,9 @@ impl Property for C09 {
         ], 0u8..4).prop_map(|(c, r, n_in, in_angles, outliers, limits)| Case::Ransac { c, r, n_in, in_angles, outliers, limits });
         let lattice = (-100i32..=100, -100i32..=100, 0u8..4, -10i32..=10, prop::collection::vec(any::<u16>(), 0..6), (prop_oneof![2 => Just(0i8), 1 => -2i8..=2], prop_oneof![2 => Just(0i8), 1 => -2i8..=2], unif(0.5, 2.0)), prop::option::of(unif(2.0, 4.0)))
             .prop_map(|(cx, cy, which, exp2, drop, guess, gaussian)| Case::CircleLattice { cx, cy, which, exp2, drop, guess, gaussian });
+        let three = (p2(50.0), p2(50.0), p2(50.0), prop_oneof![4 => Just(0u8), 1 => Just(1u8), 1 => 2u8..6]).prop_map(|(p0, p1, p2, kind)| Case::ThreePoints { p0, p1, p2, kind });
         prop_oneof![
+            1 => three,
             1 => lattice,
             8 => poly,
             1 => (coord(10.0), coord(10.0), coord(10.0), coord(10.0)).prop_map(|(x0, y0, x1, y1)| Case::Line2Pts { x0, y0, x1, y1 }),
@@ -78,6 +83,7 @@ impl Property for C09 {
             },
             Case::Line2Pts { x0, y0, x1, y1 } => line2pts(*x0, *y0, *x1, *y1),
             Case::Circle { c, r, a0, extent, n, jitter, guess, gaussian, noise } => circle(c, *r, *a0, *extent, *n, jitter, *guess, gaussian, noise),
+            Case::ThreePoints { p0, p1, p2, kind } => three_points(p0, p1, p2, *kind),
             Case::CircleLattice { cx, cy, which, exp2, drop, guess, gaussian } => circle_lattice(*cx, *cy, *which, *exp2, drop, *guess, gaussian),
             Case::Ransac { c, r, n_in, in_angles, outliers, limits } => ransac(c, *r, *n_in, in_angles, outliers, *limits),
             Case::Stats { values } => stats(values),
@@ -350,6 +356,63 @@ fn circle_lattice(cxi: i32, cyi: i32, which: u8, exp2: i32, drop: &[u16], guess:
     }
     if cxi != 0 || cyi != 0 {
         cx.nontrivial();
+    }
+    cx.pass()
+}
+
+/// "the three-point circle passes through its three points and rejects collinear ones" - a repeated point is the extreme
+/// case of collinear: whatever comes back must not be a circle with non-finite centre or radius
+fn three_points(p0: &P2, p1: &P2, p2: &P2, kind: u8) -> Verdict {
+    let mut cx = Ctx::new();
+    let (a, b, c) = (pt2(p0), pt2(p1), pt2(p2));
+    match kind {
+        0 => {
+            cx.label("three_points_general");
+            let (ab, bc, ca) = ((b - a).norm(), (c - b).norm(), (a - c).norm());
+            let m = ab.max(bc).max(ca);
+            let second = if m == ab { bc.max(ca) } else if m == bc { ab.max(ca) } else { ab.max(bc) };
+            let area2 = ((b - a).x * (c - a).y - (b - a).y * (c - a).x).abs();
+            if m == 0.0 || area2 / (m * second).max(1e-300) < 2e-3 {
+                return Verdict::Discard("needle or degenerate triangle: neither collinear nor in general position");
+            }
+            let circ = match Circle2::from_3_points(a, b, c) {
+                Ok(x) => x,
+                Err(e) => return Verdict::fail("C09/from_3_points/general_position_rejected", format!("{e}: {:?} {:?} {:?}", a, b, c)),
+            };
+            let scale = a.coords.norm().max(b.coords.norm()).max(c.coords.norm()) + m;
+            let cond = (m * m / area2).max(1.0);
+            let tol = (1e-9 * (circ.r() + m) + 64.0 * f64::EPSILON * scale) * cond * cond;
+            for (i, p) in [a, b, c].iter().enumerate() {
+                ensure!(circ.distance_to(p).abs() <= tol, "C09/from_3_points/not_through_point", "point {i} is {:e} off the circle (r={:e})", circ.distance_to(p), circ.r());
+            }
+            cx.nontrivial();
+        }
+        1 => {
+            cx.label("three_points_collinear");
+            let a = Point2::new((a.x * 4.0).round() / 4.0, (a.y * 4.0).round() / 4.0);
+            let dv = engeom::Vector2::new(b.x.round() / 4.0, b.y.round() / 4.0);
+            if dv.norm() == 0.0 {
+                return Verdict::Discard("zero step");
+            }
+            ensure!(Circle2::from_3_points(a, a + dv, a + dv * 3.0).is_err(), "C09/from_3_points/collinear_accepted", "collinear triple accepted");
+            ensure!(Circle2::from_3_points(a + dv * 3.0, a, a + dv).is_err(), "C09/from_3_points/collinear_accepted", "collinear triple (middle point first) accepted");
+            cx.nontrivial();
+        }
+        _ => {
+            cx.label("three_points_repeated");
+            let (x, y, z) = match kind {
+                2 => (a, a, c),
+                3 => (a, c, c),
+                4 => (a, c, a),
+                _ => (a, a, a),
+            };
+            match guarded(|| Circle2::from_3_points(x, y, z)) {
+                Ok(Ok(k)) => ensure!(k.r().is_finite() && k.center.x.is_finite() && k.center.y.is_finite(), "C09/from_3_points/repeated_point_gives_non_finite_circle", "triple {:?} {:?} {:?} with a repeated point was accepted as the circle ({:?}, r={:e})", x, y, z, k.center, k.r()),
+                Ok(Err(_)) => {}
+                Err(m) => return Verdict::fail("C09/from_3_points/panic", m),
+            }
+            cx.nontrivial();
+        }
     }
     cx.pass()
 }
